@@ -4,9 +4,16 @@ import "time"
 
 // Minimise shrinks a violating trace by delta debugging while the violation
 // signature stays the same (and is not a known finding). Bounded by wall time.
+// minimiseDeadline is the deadline of the minimisation in progress (one per process at a time);
+// engine-specific shrinkers consult it so that they stop producing candidates once it has passed.
+var minimiseDeadline time.Time
+
+func minimiseExpired() bool { return !minimiseDeadline.IsZero() && time.Now().After(minimiseDeadline) }
+
 func Minimise(p *Plan, t *Trace, findings []Finding) *Trace {
 	sig := t.Sig
 	deadline := time.Now().Add(20 * time.Second)
+	minimiseDeadline = deadline
 	try := func(c *Trace) bool {
 		if time.Now().After(deadline) {
 			return false
